@@ -2,7 +2,7 @@
 
 from __future__ import annotations
 
-from .. import gen, oracles as O, rig
+from .. import gen, oracles as O, rig, tconc
 from ..view import View
 from . import common
 
@@ -92,6 +92,8 @@ def work(ctx, tier):
             ctx.inc("systematic_abort_flag_scenarios")
     common.crossing_slice(ctx, tier, common.rng_for(ctx, "crossing"), lambda sc, e: _one(ctx, sc, e, stats))
     common.reconfig_slice(ctx, tier, common.rng_for(ctx, "reconfig"), lambda sc, e: _one(ctx, sc, e, stats))
+    # whole sync calls racing in threads on one budget: a retry needs a token granted to THAT call, a refusal must be reported
+    tconc.thread_slice(ctx, tier, common.rng_for(ctx, "threads"), ["tokens"], budget=True, breaker=False)
     if ctx.shard == 0:
         from . import hang
 
@@ -109,12 +111,14 @@ def conclude(ctx):
     common.crossing_floors(ctx, floors)
     floors["reconfigured_scenarios"] = (ctx.cnt["reconfigured_scenarios"], 80)
     floors["aging_budget_scenarios"] = (ctx.cnt["aging_budget_scenarios"], 100)
+    floors.update(tconc.floors(ctx))
     return dict(
         rule=(
             "sweep of outcome strings x cap grids + random scenarios (budgets, abort polls, handlers) + deadline-boundary scenarios + systematic "
             "budget-fill x abort-index grid; every failed attempt is one evaluation of the biconditional; a scenario run is non-trivial when it "
             "contains at least one failed attempt on which the predicate was evaluated; distinct = distinct (config, script, placement, entry) hashes; "
-            "cells static_false:<c> count segments where <c> was the ONLY false static conjunct, static_true:<d> where the static part held and <d> decided"
+            "cells static_false:<c> count segments where <c> was the ONLY false static conjunct, static_true:<d> where the static part held and <d> decided; "
+            "budget_exhausted is justified by the budget's own level at that instant (a refused consume() or an empty window, however the engine asked)" + tconc.RULE
         ),
         evaluations=ctx.cnt["calls"],
         nontrivial=len(ctx.sets["nontrivial"]),
@@ -125,4 +129,6 @@ def conclude(ctx):
 
 
 def replay(data):
+    if "tspec" in data["payload"]:
+        return tconc.replay(data["payload"])
     return common.replay_trace(data, [O.o_permit])
